@@ -1,3 +1,4 @@
+import WS.Lemmas.CutAnyLimit
 import WS.Lemmas.ZCut
 import WS.Lemmas.SrcLaw
 import WS.Lemmas.ReaderRejects
@@ -140,6 +141,22 @@ theorem complete_reads_to_end_or_latched (c : Conn) (rid : Nat) (hrid : c.r.msgR
     (c.r.buf.t.together = true ∧ c'.r.readErr = some .eof ∧ c'.r.remaining ≤ 0 ∧ c'.r.final = true) := by
   first | exact WS.ZCut.complete_reads_to_end_or_latched_partial .. | (apply WS.ZCut.complete_reads_to_end_or_latched_partial <;> assumption)
 
+open WS.Codec WS.ReaderDecodes WS.CutLogic WS.ReaderMore in
+/-- `cut_never_complete` WITHOUT the "no read limit" hypothesis: whatever read limit is in force
+    (positive, zero or negative), a message cut at any offset strictly inside it is never reported
+    complete; with a limit the failure may be ErrReadLimit instead of the transport's error — still an
+    error other than io.EOF after only a prefix of the payload -/
+theorem cut_never_complete_any_limit (c : Conn) (hc : ReaderIdle c) (t : Nat) (ht : t = 1 ∨ t = 2)
+    (fs : List PFrame)
+    (hs : MsgShape t fs) (cut : Nat) (hcut : cut < (encAll c.r.isServer fs).length)
+    (hp : c.r.buf.pending = (encAll c.r.isServer fs).take cut)
+    (hsz : (dataPayload fs).length < 2 ^ 62)
+    (k : Nat) (hk : 0 < k) :
+    (∃ e, openAndRead c k = .failedOpen e ∧ c.r.errCount + 1 < 1000) ∨
+    (∃ got e, openAndRead c k = .failedRead t got e ∧ e ≠ .eof ∧ got <+: dataPayload fs) ∨
+    (1000 ≤ c.r.errCount + 1 ∧ openAndRead c k = .panicked) := by
+  first | exact WS.CutAnyLimit.cut_never_complete_any_limit .. | (apply WS.CutAnyLimit.cut_never_complete_any_limit <;> assumption)
+
 /-! ### non-vacuity -/
 section NonVacuity
 set_option linter.defProp false
@@ -227,6 +244,30 @@ example : (∃ e, openAndRead (witCut 21 true) 2 = .failedOpen e ∧ (witCut 21 
     (1000 ≤ (witCut 21 true).r.errCount + 1 ∧ openAndRead (witCut 21 true) 2 = .panicked) :=
   cut_never_complete (witCut 21 true) witCut_idle 1 (Or.inl rfl) witMsg witMsg_shape 21 (by decide) (by decide)
     (by decide) (by decide) 2 (by decide)
+
+/-- `witCut 21 true` with a read limit of 4 bytes — one byte less than the message: the second data frame
+    would take the running sum to 5 -/
+def witCutLim : Conn := { witCut 21 true with r := { (witCut 21 true).r with limit := 4 } }
+
+def witCutLim_idle : ReaderIdle witCutLim :=
+  ⟨witCut_idle.noErr, witCut_idle.rem, witCut_idle.fin, witCut_idle.wf, witCut_idle.size, witCut_idle.fuel,
+   witCut_idle.hp, witCut_idle.hq⟩
+
+/-- non-vacuity of `cut_never_complete_any_limit`: all hypotheses hold with a limit in force -/
+example : (∃ e, openAndRead witCutLim 2 = .failedOpen e ∧ witCutLim.r.errCount + 1 < 1000) ∨
+    (∃ got e, openAndRead witCutLim 2 = .failedRead 1 got e ∧ e ≠ .eof ∧ got <+: dataPayload witMsg) ∨
+    (1000 ≤ witCutLim.r.errCount + 1 ∧ openAndRead witCutLim 2 = .panicked) :=
+  cut_never_complete_any_limit witCutLim witCutLim_idle 1 (Or.inl rfl) witMsg witMsg_shape 21 (by decide) (by decide)
+    (by decide) 2 (by decide)
+
+/-- what actually happens there: the cut is inside the masking key of the second data frame, so the
+    transport's end is met before the limit is consulted … -/
+example : openAndRead witCutLim 2 = .failedRead 1 [0x48, 0x65, 0x6c] .unexpectedEOF := by rfl
+
+/-- … and two bytes later (header and key of the second data frame complete, one of its two payload
+    bytes missing) the limit is what refuses the message: ErrReadLimit, not completion -/
+example : openAndRead { witCut 23 true with r := { (witCut 23 true).r with limit := 4 } } 2 =
+    .failedRead 1 [0x48, 0x65, 0x6c] .readLimit := by rfl
 
 /-- non-vacuity of `cut_never_complete_reachable`: additionally `CountInv` -/
 example : (∃ e, openAndRead (witCut 21 true) 2 = .failedOpen e) ∨
